@@ -16,25 +16,27 @@ DeepS == SchemaF(<< <<"z", With(BoolF, [default |-> BoolV(FALSE)])>> >>)
 SubS  == [validators |-> <<"x_not_3">>] @@ SchemaF(<< <<"x", With(IntF, [default |-> IntV(1), required |-> TRUE])>>,
                     <<"y", With(StringF, [choices |-> << <<"u">>, <<"v">> >>])>>,
                     <<"deep", DeepS>> >>)
-SchemaA == SchemaF(<<
+SchemaA == [dynamic |-> TRUE] @@ SchemaF(<<
     <<"a", With(IntF, [hasmin |-> TRUE, min |-> 0, hasmax |-> TRUE, max |-> 10, default |-> IntV(5)])>>,
     <<"s", With(StringF, [tcase |-> "lower", stripm |-> "ws", maxlen |-> 3])>>,
     <<"l", With(ListF(With(IntF, [hasmin |-> TRUE, min |-> 0])), [default |-> ListV(<<IntV(1)>>)])>>,
     <<"d", With(DictF(With(StringF, [tcase |-> "upper"]), IntF), [default |-> DictV(<<>>)])>>,
     <<"l2", With(ListF(IntF), [default |-> ListV(<<IntV(-5)>>)])>>,
+    <<"raw", With(DictF(NoF, NoF), [default |-> DictV(<<>>)])>>,
     <<"sub", SubS>>,
     <<"items", ListF(ItemS)>>,
     <<"ditems", With(ListF(ItemS), [default |-> ListV(<<D1(<<"p">>, IntV(5))>>)])>>,
     <<"ct", CtS>>,
     <<"citems", With(ListF(ItemC), [default |-> ListV(<<D1(<<"w">>, IntV(1)), D1(<<"w">>, IntV(1))>>)])>> >>)
 
-MCKeyNames == {"name", "port", "tags", "opts", "feat", "enabled", "key", "core", "srv", "host", "ct", "citems", "u", "m", "w", "l2", "ditems", "a", "s", "l", "d", "sub", "x", "y", "deep", "z", "items", "p", "q", "zz"}
+MCKeyNames == {"raw", "name", "port", "tags", "opts", "feat", "enabled", "key", "core", "srv", "host", "ct", "citems", "u", "m", "w", "l2", "ditems", "a", "s", "l", "d", "sub", "x", "y", "deep", "z", "items", "p", "q", "zz"}
 MCKeyChars == [k \in MCKeyNames |->
     CASE k = "a" -> <<"a">> [] k = "s" -> <<"s">> [] k = "l" -> <<"l">> [] k = "d" -> <<"d">>
       [] k = "sub" -> <<"s","u","b">> [] k = "x" -> <<"x">> [] k = "y" -> <<"y">>
       [] k = "deep" -> <<"d","e","e","p">> [] k = "z" -> <<"z">> [] k = "items" -> <<"i","t","e","m","s">>
       [] k = "name" -> <<"n", "a", "m", "e">> [] k = "port" -> <<"p", "o", "r", "t">> [] k = "tags" -> <<"t", "a", "g", "s">> [] k = "opts" -> <<"o", "p", "t", "s">> [] k = "feat" -> <<"f", "e", "a", "t">>
       [] k = "enabled" -> <<"e", "n", "a", "b", "l", "e", "d">> [] k = "key" -> <<"k", "e", "y">> [] k = "core" -> <<"c", "o", "r", "e">> [] k = "srv" -> <<"s", "r", "v">> [] k = "host" -> <<"h", "o", "s", "t">>
+      [] k = "raw" -> <<"r","a","w">>
       [] k = "ct" -> <<"c","t">> [] k = "citems" -> <<"c","i","t","e","m","s">> [] k = "u" -> <<"u">>
       [] k = "m" -> <<"m">> [] k = "w" -> <<"w">>
       [] k = "l2" -> <<"l","2">> [] k = "ditems" -> <<"d","i","t","e","m","s">>
@@ -58,7 +60,7 @@ MCSetCands ==
           [] pk = << <<>>, "items">> -> {ListV(<<D1(<<"p">>, IntV(1))>>), ListV(<<D1(<<"p">>, IntV(0))>>),
                                         ListV(<<D1(<<"p">>, IntV(2)), D2(<<"p">>, IntV(3), <<"m">>, D1(<<"k">>, s(<<"x">>)))>>),
                                         ListV(<<D1(<<"q">>, s(<<"r">>))>>), ListV(<<IntV(1)>>)}
-          [] pk = << <<>>, "zz">> -> {IntV(1)}
+          [] pk = << <<>>, "zz">> -> {IntV(1), s(<<"t">>)}
           [] pk = << <<"sub">>, "x">> -> {IntV(2), IntV(3), NoneV, s(<<"q">>)}
           [] pk = << <<"sub">>, "y">> -> {s(<<"u">>), s(<<"w">>)}
           [] pk = << <<"sub">>, "deep">> -> {D1(<<"z">>, s(<<"y","e","s">>)), D1(<<"z">>, s(<<"m">>))}
@@ -99,7 +101,9 @@ MCListOps ==
              [m |-> "item_set", i |-> 0, k |-> "q", v |-> s(<<"n">>)],
              [m |-> "insert", i |-> 0, v |-> D2(<<"p">>, IntV(4), <<"q">>, s(<<"w">>))], [m |-> "pop"]}]
 MCDictOps ==
-    [pk \in {<< <<>>, "d">>} |->
+    [pk \in {<< <<>>, "d">>, << <<>>, "raw">>} |->
+      IF pk[2] = "raw" THEN {[m |-> "setitem", k |-> s(<<"u">>), v |-> IntV(1)], [m |-> "setitem", k |-> s(<<"u">>), v |-> s(<<"w">>)], [m |-> "clear"]}
+      ELSE
         {[m |-> "setitem", k |-> s(<<"k">>), v |-> IntV(1)], [m |-> "setitem", k |-> s(<<"K">>), v |-> s(<<"2">>)],
          [m |-> "setitem", k |-> s(<<"k">>), v |-> s(<<"x">>)], [m |-> "setitem", k |-> IntV(1), v |-> IntV(1)],
          [m |-> "update", kv |-> << <<s(<<"a">>), IntV(1)>>, <<s(<<"b">>), s(<<"x">>)>> >>],
